@@ -16,7 +16,7 @@ def write(mod, acc, tier, seed, wall, n_unknown, known_seen, verdict):
         "distinct_nontrivial": len(acc.nontrivial),
         "rule": mod.RULE + (f" (distinct-hash set capped at 250000 per shard; {acc.nontrivial_overflow} further non-trivial cases not hashed)"
                             if acc.nontrivial_overflow else ""),
-        "samples": acc.samples[:8] or ["<none recorded>"],
+        "samples": acc.samples[:14] or ["<none recorded>"],
         "exhaustive": bool(acc.exhaustive) and all(acc.exhaustive.values()),
         "exhaustive_subspaces": acc.exhaustive,
         "oracle_counters": dict(sorted(acc.counters.items())),
